@@ -109,7 +109,7 @@ PLANS = {
     'C01': {
         'level_text': 'Bounded-exhaustive on the specification (18 boundary years x every day x 2 formats x 8 limits; Apalache lemma on Ordinal for all years) plus TLC trace validation of one event per date carrying all 10 output paths and 10 input-path results; thorough covers all 3,652,425 dates of 0000-9999 as a day-consecutive chain. Model checking is the right level: the property is a universally quantified equation between a constructive formatter and a declarative parser, and the finite calendar can be enumerated completely.',
         'mc': [{'module': 'MC_C01', 'what': '18 boundary years x every day x {ext,basic} x 8 limits: Parse(Fmt(d)) = d, canonical shape, Ordinal counts days'}],
-        'drivers': [{'name': 'c01', 'shards': 8, 'tiers': {'thorough': {'shards': 16}}}, CONC('c01')],
+        'drivers': [{'name': 'c01', 'shards': 8, 'tiers': {'thorough': {'shards': 16}}}, CONC('c01'), {'name': 'ovr', 'shards': 1}],
         'legs': [CAL_LEMMA],
         'codes': ['C01.'],
         'exhaustive': {'thorough': True},
@@ -164,7 +164,7 @@ PLANS = {
         'level_text': 'Specification checked for every n <= 1999 (thorough 4999) x 128 flag sets (formatter by rule vs two parser definitions); real code judged by TLC on one event per n holding the outputs, parse-backs and Valid results of all 128 flag subsets; thorough covers every n in [0,130000]. Complete enumeration of the stated quantifier, hence model checking.',
         'mc': [{'module': 'MC_C02', 'what': 'n <= NMax x 128 flag sets: RomanValue(FmtRoman(n,f)) = n by both parser definitions, canonical form laws',
                 'tiers': {'quick': {'env': {'MC_NMAX': '1999'}}, 'thorough': {'env': {'MC_NMAX': '4999'}}}}],
-        'drivers': [{'name': 'c02', 'shards': 8, 'per': 4000, 'tiers': {'thorough': {'shards': 16, 'per': 3000}}}, CONC('c02')],
+        'drivers': [{'name': 'c02', 'shards': 8, 'per': 4000, 'tiers': {'thorough': {'shards': 16, 'per': 3000}}}, CONC('c02'), {'name': 'ovr', 'shards': 1}],
         'codes': ['C02.'],
         'exhaustive': {'thorough': True},
         'rule': 'roman.fmtall: one event per n with the outputs, parse-backs and Valid results of all 128 flag subsets, judged against '
@@ -188,7 +188,7 @@ PLANS = {
     'C05': {
         'level_text': 'Specification: positional parser = declarative variant reading for every position x 26 boundary bytes x 4 rules x 4 text forms; real code: every nibble value at every position, all 256 byte values at each of the 36/45 positions, insertions, deletions, limits, accessors, judged by TLC. The single-position sweeps of the property are enumerated completely.',
         'mc': [{'module': 'MC_C05', 'what': '3 background IDs x 4 text forms x every position x 26 boundary bytes x 4 rules: positional parser = declarative variant reading; round trips'}],
-        'drivers': [{'name': 'c05', 'shards': 8}, CONC('c05')],
+        'drivers': [{'name': 'c05', 'shards': 8}, CONC('c05'), {'name': 'ovr', 'shards': 1}],
         'codes': ['C05.'],
         'rule': 'uu.fmt: all output paths + accessors + 12 parse-backs per ID (every nibble value at every position, single-bit flips, random); '
                 'uu.parse: all 256 byte values at each of the 36/45 positions, insertions, deletions, x 4 rules x {string,[]byte}, limits',
@@ -200,7 +200,7 @@ PLANS = {
                               'every string over {0,1,9,a,Z,-,.,+,v} up to length 6 (thorough 7) x 5 entry points x {string,[]byte} + UnmarshalText: '
                               'acceptance mask and value = SemVer grammar with form gating; MC_C03: split-based grammar = scanner, accepted text reproduced by formatting',
                               mc_module='MC_C03')],
-        'drivers': [{'name': 'c03', 'shards': 8, 'per': 20000}, CONC('c03')],
+        'drivers': [{'name': 'c03', 'shards': 8, 'per': 20000}, CONC('c03'), {'name': 'ovr', 'shards': 1}],
         'codes': ['C03.'],
         'exhaustive': {'quick': True, 'thorough': True},
         'rule': 'graph: complete enumeration by TLC; events: grammar-generated versions with 1-25 digit numbers (both sides of 2^64-1), long identifier lists, '
@@ -242,7 +242,7 @@ PLANS = {
     'C13': {
         'level_text': 'Shorten exactness and maximality and the grouping shape model-checked on odd x 2^k for every k; real code judged on all n < 2^14 (thorough 2^20), strata and random values for Shorten, String, PrettyString, PrettyHTML with BigDec-exact expectations.',
         'mc': [{'module': 'MC_Size', 'what': 'Shorten exact and maximal, grouping in threes from the right, on odd x 2^k for every k and boundary values'}],
-        'drivers': [{'name': 'c13', 'shards': 8, 'per': 8000, 'tiers': {'thorough': {'shards': 16}}}, CONC('c13')],
+        'drivers': [{'name': 'c13', 'shards': 8, 'per': 8000, 'tiers': {'thorough': {'shards': 16}}}, CONC('c13'), {'name': 'ovr', 'shards': 1}],
         'codes': ['C13.'],
         'rule': 'size.marshal events judged against Shorten / FmtSize (BigDec): Shorten value and unit, exact product, String, PrettyString, PrettyHTML, DefaultFormatter(FormatHTML); '
                 'all n < 2^14 (thorough 2^20) + strata + seeded random',
